@@ -258,7 +258,7 @@ func c20(c *core.Ctx) {
 				"operation": fmt.Sprintf("ForEach stopped by its callback at match %d, then Decode of the same message", stopAt), "allocs_per_run": a})
 		}
 	})
-	c.Section("messages", c.N(400, 8000), func(i int64, r *gen.Rand) {
+	c.Section("messages", c.N(400, 60000), func(i int64, r *gen.Rand) {
 		if i%16 == 0 {
 			runtime.GC() // bounded memory; the discarded warm-up call of AllocsPerRun absorbs the pool refill
 		}
